@@ -327,6 +327,14 @@ def C02(tier, seed):
             s1, s2 = rand_spec(rng), rand_spec(rng)
             scens.append(_ops([{"op": "Build", "spec": s1, "how": "parse", "rtoks": render(s1, rng)},
                                {"op": "Set", "spec": s2, "how": hows[i % 2]}], "rand"))
+        # changes that touch ONLY the text filter (same module filters): added, replaced, removed
+        res_ = [[], ["a"], ["b", "a"], ["a", "b"]]
+        for i in range(400 if quick else 5000):
+            s1 = rand_spec(rng, p_re=0.0)
+            chain = [dict(s1, hasre=bool(r_), re=list(r_)) for r_ in rng.sample(res_, 3)]
+            scens.append(_ops([{"op": "Build", "spec": chain[0], "how": "parse", "rtoks": render(chain[0], rng)},
+                               {"op": "Set", "spec": chain[1], "how": "mf"},
+                               {"op": "Set", "spec": chain[2], "how": "mf"}], "rand:regex-only-change"))
         scens += [dict(s, origin="regress:" + str(s.get("origin", ""))) for s in _regress("C02.ndjson")]
         scens = _number(scens)
         res = _run(pid, mon, scens, wd)
@@ -570,12 +578,41 @@ CS = [{"f": [{"n": ["a"], "l": 5}], "d": -1, "hasre": False, "re": []},
       {"f": [{"n": ["a", "b"], "l": 4}, {"n": ["info"], "l": 0}], "d": 0, "hasre": False, "re": []}]
 
 
-def _conc(progs, steps, origin, init=S0, tag=None):
+def _conc(progs, steps, origin, init=S0, tag=None, writer=None):
     s = {"kind": "conc", "origin": origin, "init": init, "targets": PLAIN_T, "msgs": MSGS, "progs": progs,
          "steps": steps}
     if tag:
         s["tag"] = tag
+    if writer:
+        s["writer"] = writer
     return s
+
+
+def _race_c12(rng, tier):
+    """free-running races (no schedule): all threads are released at once and run uncontrolled; reaches windows that lie
+    between the hook points. Pairs/triples of specifications with equal and with different maximum levels."""
+    hi = [{"f": [{"n": ["a"], "l": 5}], "d": -1, "hasre": False, "re": []},
+          {"f": [{"n": ["b"], "l": 5}], "d": 2, "hasre": False, "re": []},
+          {"f": [], "d": 5, "hasre": False, "re": []}]
+    lo = [{"f": [], "d": 1, "hasre": False, "re": []}, {"f": [{"n": ["a"], "l": 1}], "d": 0, "hasre": False, "re": []}]
+    out = []
+    for i in range(3000 if tier == "quick" else 40000):
+        if i % 2 == 0:
+            # one call keeps the maximum level of the active specification, a concurrent one lowers it
+            init = rng.choice(hi)
+            progs = [[{"op": "Set", "spec": rng.choice([x for x in hi if x != init])}], [{"op": "Set", "spec": rng.choice(lo)}]]
+            if rng.random() < 0.3:
+                progs.append([{"op": "Set", "spec": rng.choice(hi + lo)}])
+            rng.shuffle(progs)
+        else:
+            init = rng.choice(hi + lo + CS)
+            nt = rng.choice([2, 2, 3])
+            progs = []
+            for t in range(nt):
+                pool = hi if (t + i) % 2 == 0 else lo
+                progs.append([{"op": "Set", "spec": rng.choice(pool + CS)} for _ in range(rng.choice([1, 1, 2]))])
+        out.append(_conc(progs, [], "race", init=init, writer=({"on": True, "c": rng.choice([1, 3])} if i % 3 == 0 else None)))
+    return out
 
 
 def _rand_c12(rng, tier):
@@ -665,6 +702,20 @@ def C12(tier, seed):
         if not locked:
             scens += _rand_c12(rng, tier)
             scens += [dict(s, origin="regress:" + str(s.get("origin", ""))) for s in _regress("C12.ndjson")]
+        # the same with an additional writer registered (its max level takes part in the gate computation): own probe,
+        # own model variant
+        wr = {"on": True, "c": 1}
+        probe_w = _number([dict(probe[0], writer=wr)])
+        open(pf, "w").write(json.dumps(probe_w[0]) + "\n")
+        C.exec_flw(pf, ptf, sub=SUB)
+        locked_w = any(json.loads(x).get("ret") == "blocked" for x in open(ptf))
+        C.log(f"[{pid}] atomicity probe with an additional writer: the gate is written "
+              + ("while the specification lock is held" if locked_w else "after the specification lock is released"))
+        sfx_w = "L" if locked_w else ""
+        for r in _generate(pid, wd, "MCLogSpec.tla", f"MCLogSpec_C12gen2{sfx_w}.cfg", st):
+            scens.append(_conc(r["cfg"]["progs"], [s_ for s_ in r["steps"] if "t" in s_], "tlc:gen2+writer",
+                               init=r["steps"][0]["spec"], writer=wr))
+        scens += _race_c12(rng, tier)
         scens = _number(scens)
         res = _run(pid, mon, scens, wd)
         C.log(f"[{pid}] executed {res['scenarios']} schedules / {res['events']} events on the real code ({n_model} from "
